@@ -189,6 +189,24 @@ def run(ctx):
         ctx.ob("C09.R3a", inst, ok and bound_ok, fn.loc,
                "the scan must cover slots [0, all ids ever allocated): bound must derive from IdAllocator::end() and "
                "ThreadId::end<Epoch>() (a live-only enumeration misses a reader whose thread is being created)")
+        if ok:
+            # R3e the instance's own accessor count decides: the process-wide thread count is a fall-back for "no accessor"
+            own = [n for n in ig.ev_nodes() if n.id in live and n.ev["e"] == "call" and re.search(r"IdAllocator<.*>::end$", n.ev.get("callee", "") or "")]
+            thr = [n for n in ig.ev_nodes() if n.id in live and n.ev["e"] == "call" and re.search(r"ThreadId(Impl<.*>)?::end$", n.ev.get("callee", "") or "")]
+            own_ids = set(n.id for n in own)
+
+            def zero_edge(atom, pol, lab):
+                ec = L.effective_cmp(atom, pol)
+                if ec is None or ec[0] != "==" or const_val(ec[2]) != 0:
+                    return False
+                return any(ig.ev_of(o) is not None and ig.ev_of(o).id in own_ids for o in ig.origins(ec[1]))
+            ze = L.cond_edges(ig, zero_edge, live)
+            r_ = ig.reach([ig.entry], removed_edges=ze)
+            ctx.ob("C09.R3e", inst, bool(own) and bool(thr) and bool(ze) and ig.dominated_by(fe[0], own) and not any(t.id in r_ for t in thr),
+                   fn.loc,
+                   "accessor slots are numbered per instance, thread slots per process: the scan bound must be this instance's accessor "
+                   "count whenever it is non-zero, and the thread count only on the edge where it was seen to be 0 - otherwise an "
+                   "accessor whose index is beyond the thread count is never scanned", site="low_water_mark@bound-priority")
         lfn = None
         if isinstance(lam, dict) and lam.get("k") == "lam" and "fid" in lam:
             lfn = fn.tu.fns.get(lam["fid"])
